@@ -7,27 +7,41 @@ import (
 
 	"golang.org/x/tools/go/ssa"
 
+	"verif/checker/flow"
 	"verif/checker/ir"
 )
 
 // C06 — servers survive arbitrary peer input.
 //
-//   R-assert            no single-value type assertion on a value decoded from the peer unless a comma-ok test
-//                       of the same access path and type dominates it (directly or through a validator that
-//                       returns non-nil exactly on the failing edges and makes the caller return)
-//   R-panic-sites       no explicit panic on server paths except named, reasoned exceptions; no bare send on a
-//                       shared channel; field channels are closed at most once (Once / CAS / recover)
-//   R-lock-balanced     every mutex acquired on a server path is released on every path to the function's exit
-//   R-lock-order        the lock-order graph of the server code is acyclic; no library lock is held while
-//                       user code (handlers, filters, middlewares, callbacks) runs
-//   R-nonblocking-send  every channel send on a request path can give up (default arm, ctx/done arm)
-//   R-per-request-growth every server-lifetime collection a request path inserts into has a removal that
-//                       request paths (or a background sweeper) can reach
+//	R-assert            no single-value type assertion on a value decoded from the peer unless a comma-ok test
+//	                    of the same access path and type dominates it (directly or through a validator that
+//	                    returns non-nil exactly on the failing edges and makes the caller return)
+//	R-panic-sites       no explicit panic on server paths except named, reasoned exceptions; no bare send on a
+//	                    shared channel; field channels are closed at most once (Once / CAS / recover)
+//	R-lock-balanced     every mutex acquired on a server path is released on every path to the function's exit
+//	R-lock-order        the lock-order graph of the server code is acyclic; no library lock is held while
+//	                    user code (handlers, filters, middlewares, callbacks) runs
+//	R-nonblocking-send  every channel send on a request path can give up (default arm, ctx/done arm)
+//	R-per-request-growth every server-lifetime collection a request path inserts into has a removal that
+//	                    request paths (or a background sweeper) can reach
 func init() { Registry["C06"] = checkC06 }
 
-var panicExceptions = map[string]string{
-	"session.generateSessionID": "panics only when the OS entropy source fails — not influenced by the peer",
-	"context.WithoutCancel":     "panics only for a nil parent context — callers pass the request's context, which net/http never leaves nil",
+// panicException: explicit panics the peer cannot provoke, recognised by what controls them (not by where they are):
+// a panic on the failure edge of crypto/rand.Read, and a panic on the nil edge of a context.Context parameter.
+func panicException(fn *ssa.Function, p *ssa.Panic) string {
+	for _, g := range flow.Guards(fn, p.Block()) {
+		v, _, ok := nilCompare(g.If.Cond)
+		if !ok {
+			continue
+		}
+		if oc := originCall(v); oc != nil && ir.CallName(oc) == "crypto/rand.Read" {
+			return "panics only when the OS entropy source fails — not influenced by the peer"
+		}
+		if prm, ok := v.(*ssa.Parameter); ok && ir.TypeStr(prm.Type()) == "context.Context" {
+			return "panics only for a nil parent context — callers pass the request's context, which net/http never leaves nil"
+		}
+	}
+	return ""
 }
 
 func checkC06(c *Ctx) {
@@ -82,7 +96,7 @@ func checkC06(c *Ctx) {
 			}
 			nPanic++
 			name := fname(fn)
-			if why, ok := panicExceptions[name]; ok {
+			if why := panicException(fn, p); why != "" {
 				c.R.Hold("R-panic-sites", "panic in "+name, c.Pos(p.Pos()), "exception: "+why)
 				return
 			}
